@@ -17,7 +17,7 @@ import (
 
 func (ex *Exec) freshBytes(prefix string, n int) Slice {
 	ex.freshCnt++
-	t := Var(fmt.Sprintf("%s!%s!%d", ex.harness, prefix, ex.freshCnt), SBV(8*n))
+	t := Var(fmt.Sprintf("%s!%s%d!%d", ex.harness, prefix, 8*n, ex.freshCnt), SBV(8*n))
 	out := make(Slice, n)
 	for i := 0; i < n; i++ {
 		hi := 8*(n-i) - 1
@@ -178,6 +178,18 @@ func registerCrypto(e *Engine) {
 		}
 		ct := bvBytes(ctT, n+16)
 		seals, _ := ex.side["seals"].([]sealApp)
+		// idealisation (as for sha256): two sealings give the same ciphertext only
+		// if key, nonce and plaintext are the same
+		for _, o := range seals {
+			if len(o.ct) != len(ct) || bvOfBytes(o.ct).S == ctT.S {
+				continue
+			}
+			same := And(Eq(o.key, bvOfBytes(key)), Eq(o.nonce, bvOfBytes(nonce)))
+			if n > 0 {
+				same = And(same, Eq(bvOfBytes(o.pt), bvOfBytes(pt)))
+			}
+			ex.addPC(Implies(Eq(bvOfBytes(o.ct), ctT), same))
+		}
 		ex.side["seals"] = append(seals, sealApp{bvOfBytes(key), bvOfBytes(nonce), append([]Value(nil), pt...), ct})
 		return ct
 	}
